@@ -301,9 +301,14 @@ class DistributedNetwork(BaseManager):
         # Let the child know where we are in the distributed tree
         root, level = self._get_advertised_branch_values()
 
-        await peer.connection.send_message(DistributedBranchLevel.Request(level))
+        # Write both values in one go: a send can suspend (slow peer) and a
+        # newer advertisement queued meanwhile would be overtaken by a stale root
+        messages: list[MessageDataclass] = [DistributedBranchLevel.Request(level)]
         if level != 0:
-            await peer.connection.send_message(DistributedBranchRoot.Request(root))
+            messages.append(DistributedBranchRoot.Request(root))
+
+        await asyncio.gather(
+            *[peer.connection.send_message(message) for message in messages])
 
         logger.debug(
             "added distributed connection as child (%d / %d children) : %s",
